@@ -113,7 +113,7 @@ def judge_bottleneck(ctx, base, outs, cobjs, worst):
         if base.get("real"):
             text += " -- %s: %s" % (base["real"][0], str(base["real"][1]).replace("\n", " ; ")[:500])
         if mode == "twice":
-            c01.PENDING.append((id(cobjs[mode]), kind, text, cobjs[mode]))
+            c01.PENDING.append((id(cobjs[mode]), kind, text, cobjs[mode], "second-pass:"))
         else:
             ctx.violation("once:" + kind, text, {"case": cobjs[mode]})
     if outs["uniform"][0] != "ok" or not outs["uniform"][2]:
